@@ -451,6 +451,11 @@ func (cs *clientStream) doHttpCall(transport http.RoundTripper, req *http.Reques
 		var sz int32
 		sz, rErr = readSizePreface(reply.Body)
 		if rErr != nil {
+			if rErr == io.EOF {
+				// a complete reply always ends with a trailer message, so
+				// a body that ends before one has been cut short
+				rErr = io.ErrUnexpectedEOF
+			}
 			return
 		}
 		if sz < 0 {
